@@ -6,12 +6,23 @@
 package rtw
 
 import (
+	"bytes"
+	"context"
+	"io"
 	"math/rand"
+	"net/http/httptest"
 	"reflect"
 	"testing"
 	"unsafe"
 
 	abci "github.com/cometbft/cometbft/abci/types"
+	tmbytes "github.com/cometbft/cometbft/libs/bytes"
+	"github.com/cometbft/cometbft/libs/log"
+	rpcclient "github.com/cometbft/cometbft/rpc/client"
+	coretypes "github.com/cometbft/cometbft/rpc/core/types"
+	"github.com/cosmos/cosmos-sdk/client"
+	"github.com/cosmos/cosmos-sdk/server/api"
+	"github.com/cosmos/cosmos-sdk/server/config"
 	tmproto "github.com/cometbft/cometbft/proto/tendermint/types"
 	tmtypes "github.com/cometbft/cometbft/types"
 	"github.com/cosmos/cosmos-sdk/crypto/keys/secp256k1"
@@ -21,8 +32,11 @@ import (
 	authtypes "github.com/cosmos/cosmos-sdk/x/auth/types"
 	banktypes "github.com/cosmos/cosmos-sdk/x/bank/types"
 	"github.com/cosmos/ibc-go/v7/testing/mock"
+	"github.com/spf13/cobra"
+	"github.com/spf13/pflag"
 
 	"github.com/unification-com/mainchain/app"
+	undcmd "github.com/unification-com/mainchain/cmd/und/cmd"
 	undtypes "github.com/unification-com/mainchain/types"
 	beacontypes "github.com/unification-com/mainchain/x/beacon/types"
 	wrktypes "github.com/unification-com/mainchain/x/wrkchain/types"
@@ -32,6 +46,7 @@ var theApp *app.App
 
 func realApp() *app.App {
 	if theApp == nil {
+		rootCmd()
 		theApp = app.Setup(&testing.T{}, false)
 	}
 	return theApp
@@ -127,10 +142,22 @@ type probeEnv struct {
 
 var theProbe *probeEnv
 
+// the command tree of the `und` binary; building it sets and seals the SDK address configuration,
+// so it is built once, before anything else touches the configuration
+var theRoot *cobra.Command
+
+func rootCmd() *cobra.Command {
+	if theRoot == nil {
+		theRoot, _ = undcmd.NewRootCmd()
+	}
+	return theRoot
+}
+
 func probe() *probeEnv {
 	if theProbe != nil {
 		return theProbe
 	}
+	rootCmd()
 	t := &testing.T{}
 	config := sdk.GetConfig()
 	if config.GetBech32AccountAddrPrefix() != undtypes.Bech32PrefixAccAddr {
@@ -235,3 +262,96 @@ func ProbeLockedOnlyPayerAdmitted() bool { return probe().checkTx("beacon", 1, p
 // HasModule: is a module of that name registered with the module manager? Engine: answered from
 // the constructor calls of app.NewApp.
 func HasModule(name string) bool { _, ok := realApp().ModuleManager.Modules[name]; return ok }
+
+// ---- native probes of the supply endpoints (C17) ----
+
+// recordingRPC stands in for the node's RPC client of a client.Context: every ABCI query is
+// recorded (its path is the gRPC method name) and answered by the real application.
+type recordingRPC struct {
+	client.TendermintRPC
+	a     *app.App
+	paths []string
+}
+
+func (r *recordingRPC) ABCIQueryWithOptions(_ context.Context, path string, data tmbytes.HexBytes, opts rpcclient.ABCIQueryOptions) (*coretypes.ResultABCIQuery, error) {
+	r.paths = append(r.paths, path)
+	res := r.a.Query(abci.RequestQuery{Path: path, Data: data, Height: opts.Height, Prove: opts.Prove})
+	return &coretypes.ResultABCIQuery{Response: res}, nil
+}
+
+func recordingClientCtx() (client.Context, *recordingRPC) {
+	a := probe().a
+	enc := app.MakeEncodingConfig()
+	rec := &recordingRPC{a: a}
+	ctx := client.Context{}.WithCodec(enc.Codec).WithInterfaceRegistry(enc.InterfaceRegistry).WithTxConfig(enc.TxConfig).
+		WithLegacyAmino(enc.Amino).WithClient(rec).WithOutput(io.Discard).WithChainID("probe")
+	return ctx, rec
+}
+
+// ProbeRESTMethod: the gRPC method that serves an HTTP GET of `path` on the API server's
+// gRPC-gateway router after the application has registered its routes ("" if none was called).
+func ProbeRESTMethod(path string) string {
+	ctx, rec := recordingClientCtx()
+	srv := api.New(ctx, log.NewNopLogger())
+	probe().a.RegisterAPIRoutes(srv, config.APIConfig{})
+	srv.GRPCGatewayRouter.ServeHTTP(httptest.NewRecorder(), httptest.NewRequest("GET", path, nil))
+	if len(rec.paths) == 0 {
+		return ""
+	}
+	return rec.paths[0]
+}
+
+// ProbeCLIMethod: the gRPC method the `und` command line calls for e.g. `query bank total`
+// (cmdPath = "query", "bank", "total"); flags are given as "--name=value" strings.
+func ProbeCLIMethod(flagsAndPath ...string) string {
+	ctx, rec := recordingClientCtx()
+	root := rootCmd()
+	var path, fl []string
+	for _, x := range flagsAndPath {
+		if len(x) > 2 && x[:2] == "--" {
+			fl = append(fl, x)
+		} else {
+			path = append(path, x)
+		}
+	}
+	c, _, err := root.Find(path)
+	if err != nil || c == nil || c.RunE == nil {
+		return "no-such-command"
+	}
+	if err := c.ParseFlags(fl); err != nil {
+		return "flags: " + err.Error()
+	}
+	c.SetContext(context.WithValue(context.Background(), client.ClientContextKey, &ctx))
+	c.SetOut(io.Discard)
+	c.SetErr(io.Discard)
+	err = c.RunE(c, nil)
+	c.Flags().Visit(func(f *pflag.Flag) { _ = f.Value.Set(f.DefValue); f.Changed = false })
+	if err != nil {
+		return "error: " + err.Error()
+	}
+	if len(rec.paths) == 0 {
+		return ""
+	}
+	return rec.paths[0]
+}
+
+// ---- command-line glue (C19: `und convert`) ----
+
+var printed *bytes.Buffer
+
+// PrepareCmd gives a cobra command the client context its RunE expects, with the output captured.
+// Engine: client.GetClientQueryContext is an empty context and PrintString appends to the path's
+// output.
+func PrepareCmd(c *cobra.Command) {
+	printed = new(bytes.Buffer)
+	ctx := client.Context{}.WithOutput(printed)
+	c.SetContext(context.WithValue(context.Background(), client.ClientContextKey, &ctx))
+}
+
+// Printed: everything the command printed through the client context since PrepareCmd.
+func Printed() string {
+	if printed == nil {
+		return ""
+	}
+	return printed.String()
+}
